@@ -141,6 +141,19 @@ theorem treeStreamerOnce_threads_progress (l o : Nat) (hl : 0 < l) (ho : 0 < o) 
     (hnf : finished s = false) : ∃ a s', step ⟨none, l, o⟩ children s a = some s' :=
   progress_of_room ⟨none, l, o⟩ children s hl ho hnf (fun _ => rfl)
 
+/-- (1a'') **Termination at thread level**: if the reachable trees are covered by `l`, then in ANY schedule — any capacities,
+any interleaving of consumer and loaders — at most `4 * l.length` steps are ever made (each tree is sent, loaded, handed over
+and received once).  With (1a): under the unbounded queue every run that keeps making enabled steps reaches `finished` within
+that many steps, and (1t) says what it has yielded then. -/
+theorem treeStreamerOnce_threads_terminates (c : Cfg) (children : Nat → List Nat) (roots : List Nat) (l : List Nat)
+    (hl : ∀ id, Rustic.Streamer.Reach children roots id → id ∈ l) (acts : List Act) :
+    executed c children (init roots) acts ≤ 4 * l.length := by
+  have hi : SInv children roots (runActs c children (init roots) acts) := runActs_inv c acts _ (init_inv children roots)
+  have h1 := executed_eq_credit c children acts (init roots)
+  have h2 := credit_le hi l hl
+  have h0 : credit (init roots) = 0 := by simp [credit, init]
+  omega
+
 /-- (1a') … and between two `recv`s of the consumer every step decreases a measure (no livelock; the number of `recv`s is
 bounded by `treeStreamerOnce_terminates`). -/
 theorem treeStreamerOnce_threads_measure (c : Cfg) (children : Nat → List Nat) (s s' : TSt) (a : Act) (ha : a ≠ .recv)
@@ -185,6 +198,14 @@ theorem addRaw_lock_progress (cap : Nat) (hcap : 0 < cap) (lefts : List Nat) (ac
     let s := LockNet.runActs false cap (LockNet.init lefts) acts
     ¬ final s → ∃ a s', LockNet.step false cap s a = some s' ∧ LockNet.measure s' < LockNet.measure s :=
   addRaw_progress hcap lefts acts
+
+/-- (2a') … and no schedule makes more than `15 · (number of blobs)` steps (either variant of the code): together with (2a) every
+run of the code as it is that keeps making enabled steps ends in the final state. -/
+theorem addRaw_lock_terminates (keep : Bool) (cap : Nat) (lefts : List Nat) (acts : List LockNet.Act) :
+    LockNet.executed keep cap (LockNet.init lefts) acts ≤ 15 * lefts.sum := by
+  have h := executed_le_measure (keep := keep) (cap := cap) acts (LockNet.init lefts) (init_wf lefts)
+  rw [measure_init] at h
+  omega
 
 /-- (2b) **What progress needs: no indexer guard held while blocked.**  For BOTH variants of the code and every state: if
 every worker that holds the READ guard is in a phase whose next step cannot block (`chk`: the `has` check; `inPk`: adding to
